@@ -6,13 +6,22 @@ selection, letter case and every answer the scripted `numpy.random.normal` can g
 answer alphabet; the reference model recomputes the photocurrent terms from the input arrays
 and filters them with an own zero-phase Bessel reference.
 
+Every axis has CORE values (combined with each other up to k deviations) and EDGE values (input
+classes that are legal under the quantifier but rarely used: sample dtypes, scalar forms, limits,
+record lengths around the filter padding, ill-conditioned bandwidths, grid histories, call forms,
+amplitude scales); an edge value is taken alone (quick) or together with one core deviation (thorough),
+from the simplest baseline and from the richest centre.
+
 Parts
   main  : (lattice point, selection, letter case) -> all RNG answer combinations
   inv   : (lattice point) -> invariance group elements + scaling laws, all 7 selections
+  case  : every one of the 2^n upper/lower spellings of the 7 selections (5 640 strings)
+  sweep : parameter / selection / sampling-rate sweeps on ONE shared write-protected input object
   exc   : documented exceptions over the k<=1 lattice
   conf  : real-RNG conformance (2^18-sample CW records, 3 seeds, six-sigma bands)
 """
 from __future__ import annotations
+import copy
 import functools
 import hashlib
 import itertools
@@ -22,13 +31,13 @@ import numpy as np
 import scipy.signal as sg
 
 from mcx.core.kernel import res
-from mcx.core.env import gv_reset, ScriptedRNG, scripted_rng
+from mcx.core.env import gv_reset, ScriptedRNG, scripted_rng, freeze, unchanged
 
 ID = 'C09'
 LEVEL = 'exploration'
 NONTRIVIAL = ('the noise part is more than the filtered dark-current constant: at least one RNG request is made '
-              'or non-zero beating terms are selected (distinct observations counted); for inv/conf parts every '
-              'case with a non-zero field')
+              'or non-zero beating terms are selected (distinct observations counted); for inv/conf/sweep parts every '
+              'case with a non-zero field; for case/exc parts every distinct spelling / invalid value')
 
 # exact SI values (2019 redefinition) - deliberately not imported from the library
 KB = 1.380649e-23
@@ -40,6 +49,29 @@ TOL_F = 2.0 ** 24 * EPS      # arrays that went through the order-4 zero-phase I
                              # sos recursion at BW=0.49 fs is 6.6e6 eps per evaluation (notes/C09.md), two evaluations are compared
 TOL_S = 256 * EPS            # scalar RNG scales/variances (<= 10 multiplications + a pairwise mean over <= 2^18 samples)
 TOL_CW = 1e-12               # CW -> constant r*P*R_load (stated in DESIGN 5/C09)
+K_DT = 64                    # rounding steps (x safety) carried out in a reduced-precision sample/scalar dtype
+
+
+def tolerances(p, bw):
+    """relative tolerances for lattice point p at BW = bw*fs.
+    f   : filtered arrays.  Narrow filters: a section's recursion amplifies rounding by ||1/A||_1 <= 1/|1-pole|^2 <=
+          1/(2 pi bw)^2 (poles of the 'mag'-normalised Bessel lie at >= 1.4 x the cut-off), 2 sections x 2 passes x
+          5 eps x ||a||_1 (= 4) x odd extension (3) = 240 -> 2^9 eps/(2 pi bw)^2; never below the 0.49 fs bound TOL_F
+    cw  : unit DC gain of a section = sum(b)/sum(a) with sum(a) = |1-pole|^2 >= (2 pi bw)^2 formed from coefficients
+          of size <= 2 that carry one rounding each: relative error <= 2 eps/(2 pi bw)^2 per section, 2 sections x
+          2 passes + the steady-state initial conditions (same conditioning) -> 16, x4 safety = 64 eps/(2 pi bw)^2
+    s   : requested variances
+    dt  : samples (or scalar arguments) handed over in a reduced-precision dtype are processed in that dtype before
+          the filter (abs, square, x r, sum over polarisations, x R_load, mean: < 16 roundings) -> K_DT*eps(dtype) is
+          added everywhere; q = smallest subnormal of the dtype (absolute floor, relevant for float16 only)"""
+    e_dt, q_dt = DT_EPS.get(p['dtype'], (0.0, 0.0))
+    e_dt = max([e_dt] + [form_eps(p[a]) for a in FORM_AXES])
+    w2 = (2 * math.pi * bw) ** 2
+    return {'f': max(TOL_F, 2.0 ** 9 * EPS / w2) + K_DT * e_dt,
+            'cw': max(TOL_CW, 64 * EPS / w2) + K_DT * e_dt,
+            's': TOL_S + K_DT * e_dt,
+            'q': 4 * q_dt}
+
 
 SELECTIONS = ['ase-only', 'thermal-only', 'shot-only', 'ase-thermal', 'ase-shot', 'thermal-shot', 'all']
 SEL_TABLE = {  # selection -> (beating terms?, thermal?, shot?)
@@ -48,24 +80,101 @@ SEL_TABLE = {  # selection -> (beating terms?, thermal?, shot?)
     'all': (True, True, True)}
 LETTER_CASES = ['lower', 'UPPER', 'MiXed']
 
-# --- alphabets; first entry = baseline (simplest), then the deviations
+# ------------------------------------------------------------------ scalar forms
+# A scalar axis value is either a plain Python float/int (passed as it is) or (form, value): the value built in
+# another scalar type.  `num` is the exact number the library receives.
+FORMS = {
+    'int': int, 'float': float, 'bool': bool,
+    'np.float64': np.float64, 'np.float32': np.float32, 'np.float16': np.float16,
+    'np.int64': np.int64, 'np.int32': np.int32, 'np.uint8': np.uint8, 'np.bool_': np.bool_,
+    '0-d': lambda v: np.array(v, dtype=float),
+}
+MUST_ACCEPT = ('int', 'float')     # documented scalars.  The statement is silent on bool and numpy scalar types: the library may
+                             # reject them with its documented TypeError ("not a scalar value") or must treat them as the number
+FORM_AXES = ('r', 'T', 'R_load', 'BW', 'i_dark', 'Fn')
+
+
+def realise(spec):
+    return FORMS[spec[0]](spec[1]) if isinstance(spec, tuple) else spec
+
+
+def num(spec):
+    return float(realise(spec))
+
+
+def may_reject(spec):
+    return isinstance(spec, tuple) and spec[0] not in MUST_ACCEPT
+
+
+def form_eps(spec):
+    if isinstance(spec, tuple) and spec[0] in ('np.float32', 'np.float16'):
+        return float(np.finfo(FORMS[spec[0]]).eps)
+    return 0.0
+
+
+# ------------------------------------------------------------------ sample dtypes
+DTYPES = {'c128': np.complex128, 'c64': np.complex64, 'f64': np.float64, 'f32': np.float32, 'f16': np.float16,
+          'i64': np.int64, 'i32': np.int32, 'i16': np.int16, 'i8': np.int8, 'u8': np.uint8, 'bool': np.bool_}
+INT_FS = {'i64': 1e6, 'i32': 1e5, 'i16': 2e4, 'i8': 100, 'u8': 200, 'bool': 1}   # integer full scale the field is quantised to
+DT_EPS = {k: (float(np.finfo(DTYPES[k]).eps), float(np.finfo(DTYPES[k]).smallest_subnormal)) for k in ('c64', 'f32', 'f16')}
+DT_EPS['c64'] = DT_EPS['f32'] = (DT_EPS['f32'][0], 0.0)      # 1.4e-45: no floor needed
+
+
+def is_int_dtype(name):
+    return np.dtype(DTYPES[name]).kind in 'iub'
+
+
+def precision_class(p):
+    """'double' | 'single' | 'half': the lowest precision among the sample dtype and the scalar forms of point p"""
+    e = max([DT_EPS.get(p['dtype'], (0.0, 0.0))[0]] + [form_eps(p[a]) for a in FORM_AXES])
+    return 'double' if e == 0 else ('single' if e < 1e-6 else 'half')
+
+
+# --- alphabets: (axis, core values [first = baseline, simplest], edge values)
+F = lambda form, v: (form, v)   # noqa: E731
 AXES = [
-    ('N', [32, 17, 100, 257]),
-    ('kind', ['cw', 'tones', 'rand', 'zero']),
-    ('layout', ['x', 'xy', 'xx', 'x0', '1xN']),
-    ('onoise', ['none', 'small', 'large', 'zeros']),
-    ('r', [1.0, 0.5, 0.01]),
-    ('T', [300.0, 0.0, 77.0]),
-    ('R_load', [50.0, 1.0, 1e4]),
-    ('BW', [0.3, 0.05, 0.49]),          # fraction of fs
-    ('i_dark', [10e-9, 0.0, 1e-6]),
-    ('Fn', [0, 3, 10]),                 # dB
-    ('fs', [16e9, 80e9, 2e9]),
+    ('N', [32, 17, 100, 257],
+     list(range(18, 32)) + [33, 64, 97, 127, 128, 1023, 1024, 1025, 4096]),          # 17..33: around the 16-sample padding
+    ('kind', ['cw', 'tones', 'rand', 'zero'],
+     ['imag', 'chirp', 'ook', 'ramp', 'dcsmall', 'impulse']),
+    ('layout', ['x', 'xy', 'xx', 'x0', '1xN'],
+     ['0x', 'xy-n0y', 'x-np1', '2xN-np1', '1xN-np1', 'x-list', 'xy-list']),
+    ('onoise', ['none', 'small', 'large', 'zeros'],
+     ['real', 'int', 'zerosum', 'tiny']),
+    ('r', [1.0, 0.5, 0.01],
+     [F('int', 1), F('bool', True), float(np.nextafter(1.0, 0.0)), 1e-6, 1e-200, F('np.float64', 0.5), F('np.float32', 0.5),
+      F('np.float16', 0.5), F('np.int64', 1), F('np.bool_', True), F('0-d', 0.5)]),
+    ('T', [300.0, 0.0, 77.0],
+     [F('int', 300), F('int', 0), -0.0, F('bool', True), F('bool', False), 5e-324, 1e-280, 1e5, F('np.float64', 77.0),
+      F('np.float32', 77.0), F('np.int64', 300), F('np.int64', 0), F('0-d', 300.0)]),
+    ('R_load', [50.0, 1.0, 1e4],
+     [F('int', 50), F('bool', True), 1e-12, 1e-6, 1e9, F('np.float64', 50.0), F('np.float32', 50.0), F('np.int64', 50),
+      F('np.uint8', 50), F('0-d', 50.0)]),
+    ('BW', [0.3, 0.05, 0.49],           # fraction of fs
+     [1e-4, 1e-3, 1e-2, 0.15, 0.4, F('int', 0.3), F('np.float64', 0.3)]),
+    ('i_dark', [10e-9, 0.0, 1e-6],
+     [F('int', 0), 1e-15, 1e-3, F('np.float64', 1e-6), F('np.float32', 1e-6)]),
+    ('Fn', [0, 3, 10],                  # dB
+     [F('float', 0.0), F('float', 3.0), 0.5, 30, F('np.int64', 3), F('np.float64', 3.0), F('np.float32', 3.0)]),
+    ('fs', [16e9, 80e9, 2e9],
+     [1e3, 1e6, 48e9, 1e12]),
+    ('dtype', ['c128'],
+     ['f64', 'i64', 'c64', 'f32', 'f16', 'i32', 'i16', 'i8', 'u8', 'bool']),
+    ('call', ['kw'],
+     ['pos', 'dflt']),
+    ('grid', ['sps,R'],
+     ['sps,fs', 'R,fs', 'R,fs~', 'fs', 'fs~', 'N8', 'wl1310', 'intR', 'npR']),
+    ('amp', [1.0],                      # the whole field (signal and noise) multiplied by this
+     [1e-12, 1e-9, 1e-6, 1e-3, 1e3, 1e6]),
 ]
-AXN = [a for a, _ in AXES]
+AXN = [a for a, _, _ in AXES]
+CORE = {a: c for a, c, _ in AXES}
+EDGE = {a: e for a, _, e in AXES}
+SIMPLE = {a: c[0] for a, c, _ in AXES}
 RICH = {'N': 100, 'kind': 'rand', 'layout': 'xy', 'onoise': 'small', 'r': 0.5, 'T': 77.0, 'R_load': 1e4,
-        'BW': 0.05, 'i_dark': 1e-6, 'Fn': 3, 'fs': 80e9}
+        'BW': 0.05, 'i_dark': 1e-6, 'Fn': 3, 'fs': 80e9, 'dtype': 'c128', 'call': 'pos', 'grid': 'sps,fs', 'amp': 1.0}
 P_CW = 1e-3   # W
+DEFAULTS = {'r': 1.0, 'T': 300.0, 'R_load': 50.0, 'i_dark': 10e-9, 'Fn': 0}     # documented defaults of PD
 
 ANSWERS = ['zero', 'ones', 'alt', 'impulse']
 
@@ -79,28 +188,51 @@ def letter_case(name, lc):
 
 
 # ------------------------------------------------------------------ spaces
-def deviations(centre, k):
-    """all points that differ from `centre` (dict axis->value) in at most k axes; ordered by number of
-    deviations, then by axis order / value order (simplest first)"""
-    pts = []
-    for m in range(k + 1):
-        for axes in itertools.combinations(range(len(AXES)), m):
+def legal(p):
+    """combinations the harness cannot represent (not restrictions of the property)"""
+    if is_int_dtype(p['dtype']) and p['amp'] != 1.0:
+        return False                       # the integer field is quantised to the full scale of its dtype
+    if p['dtype'] == 'f16':                # 11 significant bits, range 6e-8 .. 65504: r*P*R_load must fit
+        if p['amp'] != 1.0 or p['R_load'] not in CORE['R_load'] or p['r'] not in CORE['r']:
+            return False
+    return True
+
+
+def deviations(centre, k_core, k_edge):
+    """points that differ from `centre` in at most k_core axes by core values, plus points with ONE edge value and at
+    most k_edge further core deviations (k_edge < 0: no edge values).  Returns [(point, number of deviations)],
+    ordered by number of deviations, then axis order / value order (simplest first)"""
+    n = len(AXES)
+
+    def core_devs(m, skip=None):
+        for axes in itertools.combinations([i for i in range(n) if i != skip], m):
             alts = [[v for v in AXES[i][1] if v != centre[AXES[i][0]]] for i in axes]
             for vals in itertools.product(*alts):
-                p = dict(centre)
-                for i, v in zip(axes, vals):
-                    p[AXES[i][0]] = v
-                pts.append(tuple(p[a] for a in AXN))
-    return pts
+                yield dict(zip((AXES[i][0] for i in axes), vals))
+
+    out = []
+    for m in range(max(k_core, k_edge + 1) + 1):
+        if m <= k_core:
+            for d in core_devs(m):
+                out.append((dict(centre, **d), m))
+        if 1 <= m <= k_edge + 1:
+            for i in range(n):
+                for ev in AXES[i][2]:
+                    if ev == centre[AXES[i][0]]:
+                        continue
+                    for d in core_devs(m - 1, skip=i):
+                        out.append((dict(centre, **d, **{AXES[i][0]: ev}), m))
+    return [(tuple(p[a] for a in AXN), m) for p, m in out if legal(p)]
 
 
-def lattice(k_simple, k_rich):
-    simple = {a: v[0] for a, v in AXES}
+def lattice(k_simple, k_rich, e_simple=-1, e_rich=-1):
+    """[(point, depth)] around the two centres, duplicates removed (first = shallowest occurrence kept)"""
     seen, out = set(), []
-    for p in deviations(simple, k_simple) + deviations(RICH, k_rich):
-        if p not in seen:
-            seen.add(p)
-            out.append(p)
+    for p, m in deviations(SIMPLE, k_simple, e_simple) + deviations(RICH, k_rich, e_rich):
+        key = repr(p)        # repr: 1 and 1.0 and True are different forms
+        if key not in seen:
+            seen.add(key)
+            out.append((p, m))
     return out
 
 
@@ -127,6 +259,26 @@ def field_rows(kind, N, seed):
     elif kind == 'zero':
         x = np.zeros(N, complex)
         y = np.zeros(N, complex)
+    elif kind == 'imag':            # CW, purely imaginary
+        x = np.full(N, 1j * a)
+        y = np.full(N, -0.5j * a)
+    elif kind == 'chirp':           # constant envelope, quadratic phase
+        x = a * np.exp(0.4j * np.pi * n * n / N)
+        y = 0.5 * a * np.exp(-0.25j * np.pi * n * n / N + 0.8j)
+    elif kind == 'ook':             # on/off envelope (4-sample slots), dark samples are exactly zero
+        x = a * math.sqrt(2) * ((n // 4) % 2) * np.exp(0.3j)
+        y = 0.5 * a * math.sqrt(2) * (((n + 2) // 4) % 2) * np.exp(-1.1j)
+    elif kind == 'ramp':            # linearly rising / falling power
+        x = a * np.sqrt(2 * (n + 1) / N) * np.exp(0.3j)
+        y = 0.5 * a * np.sqrt(2 * (N - n) / N) * np.exp(-1.1j)
+    elif kind == 'dcsmall':         # large constant with a 1e-6 ripple
+        x = a * (1 + 1e-6 * np.cos(2 * np.pi * 3 * n / N)) * np.exp(0.3j)
+        y = np.full(N, 0.5 * a * np.exp(-1.1j))
+    elif kind == 'impulse':         # one lit sample per polarisation
+        x = np.zeros(N, complex)
+        y = np.zeros(N, complex)
+        x[N // 2] = a * math.sqrt(N) * np.exp(0.3j)
+        y[0] = 0.5 * a * math.sqrt(N) * np.exp(-1.1j)
     else:
         raise KeyError(kind)
     return x.astype(complex), y.astype(complex)
@@ -137,46 +289,118 @@ def noise_rows(onoise, N, seed):
         return None
     if onoise == 'zeros':
         return np.zeros(N, complex), np.zeros(N, complex)
-    amp = {'small': 0.05, 'large': 1.0}[onoise] * math.sqrt(P_CW)
+    a = math.sqrt(P_CW)
+    if onoise == 'zerosum':          # samples sum to exactly zero
+        s = np.where(np.arange(N) % 2 == 0, 1.0, -1.0)
+        if N % 2:
+            s[-1] = 0.0
+        return 0.05 * a * s * np.exp(0.9j), 0.05 * a * s[::-1] * np.exp(-0.2j)
+    if onoise == 'int':              # integer-valued noise of dtype int64 (its own dtype, not the signal's)
+        g = _rs(seed, 'noise', N, onoise).randint(-1, 2, size=(2, N))
+        return g[0].astype(complex), g[1].astype(complex)
+    amp = {'small': 0.05, 'large': 1.0, 'real': 0.05, 'tiny': 1e-9}[onoise] * a
     g = _rs(seed, 'noise', N, onoise).randn(4, N)
     return amp * math.sqrt(0.5) * (g[0] + 1j * g[1]), amp * math.sqrt(0.5) * (g[2] + 1j * g[3])
 
 
-def lay(rows, layout):
-    """arrange (x, y) rows into the constructor argument; returns (array, n_pol argument)"""
+def cast(a, dtype, peak):
+    """complex harness row -> row of the sample dtype (real dtypes take the real part, integer dtypes the real part
+    quantised so that `peak` maps to the dtype's full scale INT_FS)"""
+    dt = np.dtype(DTYPES[dtype])
+    if dt.kind == 'c':
+        return a.astype(dt)
+    if dt.kind == 'f':
+        return a.real.astype(dt)
+    q = np.rint(a.real / peak * INT_FS[dtype])
+    if dt.kind == 'u':
+        q = np.abs(q)
+    if dt.kind == 'b':
+        return q != 0
+    return q.astype(dt)
+
+
+def lay(rows, layout, role='sig'):
+    """arrange (x, y) rows into the constructor argument; returns (array or nested list, n_pol argument)"""
     x, y = rows
-    if layout == 'x':
-        return x.copy(), None
-    if layout == 'xy':
-        return np.array([x, y]), None
-    if layout == 'xx':
-        return x.copy(), 2
-    if layout == 'x0':
-        return np.array([x, np.zeros_like(x)]), None
-    if layout == '1xN':
-        return x[np.newaxis, :].copy(), None
-    raise KeyError(layout)
+    z = np.zeros_like(x)
+    if layout in ('x', 'xx', 'x-np1', 'x-list'):
+        arr = x.copy()
+    elif layout in ('xy', '2xN-np1', 'xy-list'):
+        arr = np.array([x, y])
+    elif layout == 'x0':
+        arr = np.array([x, z])
+    elif layout in ('1xN', '1xN-np1'):
+        arr = x[np.newaxis, :].copy()
+    elif layout == '0x':            # dark first polarisation; the noise is present in both
+        arr = np.array([z, x]) if role == 'sig' else np.array([x, y])
+    elif layout == 'xy-n0y':        # noise in the second polarisation only
+        arr = np.array([x, y]) if role == 'sig' else np.array([z, y])
+    else:
+        raise KeyError(layout)
+    if layout.endswith('-list'):
+        arr = arr.tolist()
+    return arr, {'xx': 2, 'x-np1': 1, '2xN-np1': 1, '1xN-np1': 1}.get(layout)
 
 
 def build_arrays(pt, seed):
     """constructor arguments of the optical field for lattice point `pt`"""
     p = dict(zip(AXN, pt))
-    sig, n_pol = lay(field_rows(p['kind'], p['N'], seed), p['layout'])
-    nz = noise_rows(p['onoise'], p['N'], seed)
-    noi = None if nz is None else lay(nz, p['layout'])[0]
-    return sig, noi, n_pol
+    N, dt, amp = p['N'], p['dtype'], p['amp']
+    rows = field_rows(p['kind'], N, seed)
+    peak = max(float(np.abs(r.real).max()) for r in rows) or 1.0
+    sig, n_pol = lay(tuple(cast(r * amp, dt, peak * amp) for r in rows), p['layout'])
+    nz = noise_rows(p['onoise'], N, seed)
+    if nz is None:
+        return sig, None, n_pol
+    if p['onoise'] == 'real':
+        nz = tuple((r.real * amp).astype(float) for r in nz)
+    elif p['onoise'] == 'int':
+        nz = tuple(np.rint(r.real).astype(np.int64) for r in nz)
+    else:
+        nz = tuple(cast(r * amp, dt, peak * amp) for r in nz)
+    return sig, lay(nz, p['layout'], 'noise')[0], n_pol
 
 
 def make_input(sig, noi, n_pol):
     from opticomlib.typing import optical_signal
+    sig, noi = copy.deepcopy(sig), copy.deepcopy(noi)
     if n_pol is None:
-        return optical_signal(sig.copy(), None if noi is None else noi.copy())
-    return optical_signal(sig.copy(), None if noi is None else noi.copy(), n_pol=n_pol)
+        return optical_signal(sig, noi)
+    return optical_signal(sig, noi, n_pol=n_pol)
 
 
-def set_grid(fs):
-    gv = gv_reset(sps=16, R=fs / 16)
+def set_grid(fs, grid='sps,R', clean=True):
+    """configure the global grid in the documented form `grid`; returns the sampling rate in force"""
+    from opticomlib.typing import gv
+    R = fs / 16
+    kw = {'sps,R': dict(sps=16, R=R),
+          'sps,fs': dict(sps=16, fs=fs),
+          'R,fs': dict(R=R, fs=fs),
+          'R,fs~': dict(R=fs / 16.4, fs=fs),            # fs/R is not an integer: sps is rounded, sps*R != fs
+          'fs': dict(fs=fs),                            # R stays at its 1e9 default
+          'fs~': dict(fs=fs * 1.03125),                 # fs alone, fs/R = 16.5, 82.5, 2.0625
+          'N8': dict(sps=16, R=R, N=8),                 # a slot count in force: gv.t / gv.w have 128 entries, not N
+          'wl1310': dict(sps=16, R=R, wavelength=1310e-9),
+          'intR': dict(sps=16, R=int(R)),               # Python ints: gv.fs is an int
+          'npR': dict(sps=np.int64(16), R=np.float64(R)),
+          }[grid]
+    if clean:
+        gv_reset(**kw)
+    else:
+        import warnings
+        with warnings.catch_warnings():
+            warnings.simplefilter('ignore')
+            gv(**kw)
     return float(gv.fs)
+
+
+def bw_of(spec, fs):
+    """(BW argument in Hz in the form of `spec`, exact fraction of fs it amounts to)"""
+    if isinstance(spec, tuple):
+        arg = FORMS[spec[0]](spec[1] * fs)
+    else:
+        arg = spec * fs
+    return arg, float(arg) / fs
 
 
 # ------------------------------------------------------------------ reference model
@@ -191,27 +415,53 @@ def lpf_ref(x, BW, fs):
 
 
 def terms(inp):
-    """photocurrent ingredients recomputed from the arrays PD receives.
+    """photocurrent ingredients recomputed (in complex128, exact for every sample dtype) from the arrays PD receives.
     returns P_sig[n], beat[n] (sig-noise + noise-noise, per unit responsivity), mean sig power, mean noise power,
     magnitude scale of the beating terms (for rounding bounds)"""
-    S = np.atleast_2d(np.asarray(inp.signal, dtype=complex))
+    S = np.atleast_2d(np.asarray(inp.signal).astype(complex))
     psig = (S.real ** 2 + S.imag ** 2).sum(axis=0)
     if inp.noise is None:
         z = np.zeros(S.shape[1])
         return psig, z, float(psig.mean()), 0.0, 0.0
-    Z = np.atleast_2d(np.asarray(inp.noise, dtype=complex))
+    Z = np.atleast_2d(np.asarray(inp.noise).astype(complex))
     pn = (Z.real ** 2 + Z.imag ** 2).sum(axis=0)
     beat = 2 * (S.real * Z.real + S.imag * Z.imag).sum(axis=0) + pn
     mag = float((2 * np.sqrt(psig * pn) + pn).max())
     return psig, beat, float(psig.mean()), float(pn.mean()), mag
 
 
-def variances(p, fs, psig_mean, pn_mean):
+def variances(v, fs, psig_mean, pn_mean):
     """documented variances in A^2, B = fs/2"""
     B = fs / 2
-    s_t = 4 * KB * p['T'] * 10 ** (p['Fn'] / 10) * B / p['R_load']
-    s_n = 2 * QE * (p['r'] * (psig_mean + pn_mean) + p['i_dark']) * B
+    s_t = 4 * KB * v['T'] * 10 ** (v['Fn'] / 10) * B / v['R_load']
+    s_n = 2 * QE * (v['r'] * (psig_mean + pn_mean) + v['i_dark']) * B
     return s_t, s_n
+
+
+def values(p):
+    """numeric values of the scalar parameters (the exact numbers the library receives)"""
+    return {a: num(p[a]) for a in ('r', 'T', 'R_load', 'i_dark', 'Fn')}
+
+
+def oracle(inp, p, fs, bw, sel):
+    """everything the zero-answer run is compared with"""
+    v = values(p)
+    psig, beat, psm, pnm, bmag = terms(inp)
+    want_beat, want_T, want_N = SEL_TABLE[sel]
+    s_t, s_n = variances(v, fs, psm, pnm)
+    R, r = v['R_load'], v['r']
+    N = psig.size
+    BW = bw * fs
+    o = {'v': v, 'N': N, 'BW': BW, 'fs': fs, 'sel': sel, 'tol': tolerances(p, bw), 'psig': psig, 'bmag': bmag,
+         'expected': ([('thermal', s_t)] if want_T else []) + ([('shot', s_n)] if want_N else []),
+         'sig_ref': lpf_ref(R * r * psig, BW, fs),
+         'noise0_ref': lpf_ref(R * ((r * beat if want_beat else 0.0) + v['i_dark']) + np.zeros(N), BW, fs),
+         'sig_scale': R * r * float(psig.max()),
+         'det_scale': R * (r * bmag * (1 if want_beat else 0) + v['i_dark']),
+         'nontrivial': bool(want_T or want_N or (want_beat and bmag > 0)),
+         's_floor': 2 * QE * (fs / 2) * 4 * DT_EPS.get(p['dtype'], (0, 0))[1]}
+    o['cw'] = bool(psig.max() == psig.min() and psig[0] > 0)
+    return o
 
 
 def pattern(aid, n):
@@ -232,9 +482,27 @@ def _size_n(size):
     return int(size)
 
 
+class RNG(ScriptedRNG):
+    """the kernel's scripted RNG records an array-valued scale as 'array'.  A scale array whose entries are all the same
+    number IS one number per call (identical distribution): it is recorded as that number; for a non-constant array the
+    range is recorded next to 'array' (the documented variance is one number per record: the mean power enters)."""
+
+    def normal(self, loc=0.0, scale=1.0, size=None):
+        out = super().normal(loc, scale, size)
+        q = self.requests[-1]
+        if q['scale'] == 'array':
+            s = np.asarray(scale, dtype=float)
+            lo, hi = float(s.min()), float(s.max())
+            if lo == hi:
+                q['scale'] = lo
+            else:
+                q['scale_range'] = (lo, hi)
+        return out
+
+
 def make_script(combo):
     """scripted RNG answering the i-th request with pattern combo[i] (zero beyond)"""
-    script = ScriptedRNG()
+    script = RNG()
 
     def answer(kind, info):
         i = len(script.requests) - 1
@@ -256,10 +524,25 @@ def _from_library(exc):
     return False
 
 
-def call_pd(inp, p, fs, include_noise):
+def call_pd(inp, p, bw_arg, include_noise, **override):
+    """PD call in the call form p['call']; scalar arguments in the forms given by the lattice point"""
     from opticomlib.devices import PD
-    return PD(inp, p['BW'] * fs, r=p['r'], T=p['T'], R_load=p['R_load'], include_noise=include_noise,
-              i_dark=p['i_dark'], Fn=p['Fn'])
+    a = {k: realise(p[k]) for k in ('r', 'T', 'R_load', 'i_dark', 'Fn')}
+    a.update(override)
+    form = p['call']
+    if form == 'pos':          # documented positional order
+        return PD(inp, bw_arg, a['r'], a['T'], a['R_load'], include_noise, a['i_dark'], a['Fn'])
+    if form == 'dflt':         # every argument that equals its documented default is left out
+        kw = {k: x for k, x in a.items() if k in override or isinstance(p[k], tuple) or p[k] != DEFAULTS[k]}
+        if include_noise != 'all':
+            kw['include_noise'] = include_noise
+        return PD(inp, bw_arg, **kw)
+    return PD(inp, bw_arg, r=a['r'], T=a['T'], R_load=a['R_load'], include_noise=include_noise, i_dark=a['i_dark'], Fn=a['Fn'])
+
+
+def rejected(e, p):
+    """a TypeError of the library for a bool / numpy-scalar FORM of a legal value: the statement is silent (accepted)"""
+    return type(e) is TypeError and _from_library(e) and any(may_reject(p[a]) for a in FORM_AXES)
 
 
 def shape_check(out, N, viol, where):
@@ -286,9 +569,10 @@ def shape_check(out, N, viol, where):
     return ok
 
 
-def match_requests(reqs, expected, N, sel, viol, where):
-    """the SET of requests must equal the selection table.  expected = [(name, variance)].
+def match_requests(reqs, o, viol, where):
+    """the SET of requests must equal the selection table.  o['expected'] = [(name, variance)].
     returns list of scales (A) per request in request order, or None when the log is malformed"""
+    expected, N, sel, tol = o['expected'], o['N'], o['sel'], o['tol']['s']
     bad = False
     for q in reqs:
         if q.get('fn') != 'normal':
@@ -301,7 +585,8 @@ def match_requests(reqs, expected, N, sel, viol, where):
             viol.append((f'rng:request-size:{sel}', f'{where}: request {q} is not of size N={N}'))
             bad = True
         elif not isinstance(q['scale'], float) or not (q['scale'] >= 0):
-            viol.append((f'rng:request-scale:{sel}', f'{where}: request {q} has an invalid scale'))
+            viol.append((f'rng:request-scale:{sel}', f'{where}: request {q} has an invalid scale (one non-negative number per '
+                                                     f'call is documented; "array" = a per-sample scale, range in scale_range)'))
             bad = True
     if len(reqs) != len(expected):
         viol.append((f'rng:request-count:{sel}',
@@ -315,7 +600,7 @@ def match_requests(reqs, expected, N, sel, viol, where):
         hit = None
         for i in left:
             got = reqs[i]['scale'] ** 2
-            if abs(got - var) <= TOL_S * max(var, got):
+            if abs(got - var) <= tol * max(var, got) + (o['s_floor'] if name == 'shot' else 0.0):
                 hit = i
                 break
         if hit is None:
@@ -328,8 +613,44 @@ def match_requests(reqs, expected, N, sel, viol, where):
     return None if bad else [q['scale'] for q in reqs]
 
 
+def judge_zero(out, reqs, o, w, viol, errs):
+    """all RNG answers were 0: deterministic oracle for the signal part, the noise part and the request log"""
+    v, N, tol = o['v'], o['N'], o['tol']
+    R, r = v['R_load'], v['r']
+    floor = R * tol['q']
+    e = float(np.abs(out.signal - o['sig_ref']).max())
+    errs['signal'] = max(errs.get('signal', 0.0), e / o['sig_scale'] if o['sig_scale'] else e)
+    if e > tol['f'] * o['sig_scale'] + floor:
+        viol.append(('sig:square-law', f'{w}: max|out.signal - LPF(R_load*r*sum|E|^2)| = {e:.3e} '
+                                       f'(scale {o["sig_scale"]:.3e}, tol {tol["f"] * o["sig_scale"] + floor:.3e})'))
+    if o['cw']:
+        const = r * float(o['psig'][0]) * R
+        e = float(np.abs(out.signal - const).max())
+        errs['cw'] = max(errs.get('cw', 0.0), e / const if const else e)
+        if e > tol['cw'] * const + floor:
+            viol.append(('sig:cw-constant', f'{w}: CW of power {o["psig"][0]:.6g} W gives {out.signal[[0, N // 2, -1]]}, '
+                                            f'expected the constant r*P*R_load = {const:.17g} (max dev {e:.3e}, '
+                                            f'tol {tol["cw"] * const + floor:.3e})'))
+    e = float(np.abs(out.noise - o['noise0_ref']).max())
+    errs['noise0'] = max(errs.get('noise0', 0.0), e / o['det_scale'] if o['det_scale'] else e)
+    if e > tol['f'] * o['det_scale'] + floor:
+        viol.append((f'noise:zero-answer:{o["sel"]}',
+                     f'{w}: with all RNG answers 0, max|out.noise - LPF(R_load*(selected beating + i_dark))| = '
+                     f'{e:.3e} (scale {o["det_scale"]:.3e}); out.noise[mid]={out.noise[N // 2]:.6e} '
+                     f'ref[mid]={o["noise0_ref"][N // 2]:.6e}'))
+    match_requests(reqs, o, viol, w)
+
+
 def _h(a):
     return hashlib.sha256(np.ascontiguousarray(a).tobytes()).hexdigest()[:16]
+
+
+def _suffix(viol, p):
+    """integer / bool sample dtypes get their own (few) violation keys: the library does its arithmetic in the dtype of the
+    field, which is one defect with many symptoms; the violated clause stays in the message"""
+    if not is_int_dtype(p['dtype']):
+        return viol
+    return [(f"{k.replace('sweep:', '').split(':')[0]}:integer-dtype-field", f'[{k}] {m}') for k, m in viol]
 
 
 # ------------------------------------------------------------------ part main
@@ -337,36 +658,33 @@ def case_main(case):
     pt, sel, lc, seed = case
     p = dict(zip(AXN, pt))
     N = p['N']
-    fs = set_grid(p['fs'])
-    BW = p['BW'] * fs
+    fs = set_grid(p['fs'], p['grid'])
+    bw_arg, bw = bw_of(p['BW'], fs)
+    BW = bw * fs
     sig, noi, n_pol = build_arrays(pt, seed)
     name = letter_case(sel, lc)
-    want_beat, want_T, want_N = SEL_TABLE[sel]
     where = f'pt={p} sel={name!r}'
-    viol, obs, stats = [], [], {'pd_calls': 0, 'rng_requests': 0, 'answer_combos': 0}
+    viol, obs, stats = [], [], {'pd_calls': 0, 'rng_requests': 0, 'answer_combos': 0, 'forms_rejected': 0}
     errs = {}
 
-    ref_in = make_input(sig, noi, n_pol)
-    psig, beat, psm, pnm, bmag = terms(ref_in)
-    s_t, s_n = variances(p, fs, psm, pnm)
-    expected = ([('thermal', s_t)] if want_T else []) + ([('shot', s_n)] if want_N else [])
-    R, r = p['R_load'], p['r']
-    sig_ref = lpf_ref(R * r * psig, BW, fs)
-    det = R * ((r * beat if want_beat else 0.0) + p['i_dark']) + np.zeros(N)
-    noise0_ref = lpf_ref(det, BW, fs)
-    sig_scale = R * r * float(psig.max())
-    det_scale = R * (r * bmag * (1 if want_beat else 0) + p['i_dark'])
+    o = oracle(make_input(sig, noi, n_pol), p, fs, bw, sel)
+    R = o['v']['R_load']
+    tol = o['tol']
 
     base = None
-    for combo in itertools.product(range(len(ANSWERS)), repeat=len(expected)):
+    for combo in itertools.product(range(len(ANSWERS)), repeat=len(o['expected'])):
         inp = make_input(sig, noi, n_pol)
         script = make_script(combo)
         try:
             with scripted_rng(script):
-                out = call_pd(inp, p, fs, name)
+                out = call_pd(inp, p, bw_arg, name)
         except (ValueError, TypeError) as e:
             if not _from_library(e):
                 raise
+            if rejected(e, p):
+                stats['forms_rejected'] += 1
+                obs.append(('REJECTED', combo, str(e)[:60]))
+                break
             viol.append((f'valid-arguments-rejected:{lc}', f'{where}: {type(e).__name__}: {e}'))
             obs.append(('EXC', combo, type(e).__name__))
             continue
@@ -383,26 +701,7 @@ def case_main(case):
         if base is None:
             # ---- zero answers: deterministic oracle
             base = (out.signal.copy(), out.noise.copy(), [dict(q) for q in reqs])
-            e = float(np.abs(out.signal - sig_ref).max())
-            errs['signal'] = e / sig_scale if sig_scale else e
-            if e > TOL_F * sig_scale:
-                viol.append(('sig:square-law', f'{w}: max|out.signal - LPF(R_load*r*sum|E|^2)| = {e:.3e} '
-                                               f'(scale {sig_scale:.3e}, tol {TOL_F * sig_scale:.3e})'))
-            if p['kind'] == 'cw':
-                const = r * float(psig[0]) * R
-                e = float(np.abs(out.signal - const).max())
-                errs['cw'] = e / const
-                if e > TOL_CW * const:
-                    viol.append(('sig:cw-constant', f'{w}: CW of power {psig[0]:.6g} W gives {out.signal[[0, N // 2, -1]]}, '
-                                                    f'expected the constant r*P*R_load = {const:.17g} (max dev {e:.3e})'))
-            e = float(np.abs(out.noise - noise0_ref).max())
-            errs['noise0'] = e / det_scale if det_scale else e
-            if e > TOL_F * det_scale:
-                viol.append((f'noise:zero-answer:{sel}',
-                             f'{w}: with all RNG answers 0, max|out.noise - LPF(R_load*(selected beating + i_dark))| = '
-                             f'{e:.3e} (scale {det_scale:.3e}); out.noise[mid]={out.noise[N // 2]:.6e} '
-                             f'ref[mid]={noise0_ref[N // 2]:.6e}'))
-            match_requests(reqs, expected, N, sel, viol, w)
+            judge_zero(out, reqs, o, w, viol, errs)
             continue
         # ---- non-zero answers: deterministic signal, same requests, unit-gain linear entry
         b_sig, b_noise, b_reqs = base
@@ -421,16 +720,15 @@ def case_main(case):
         want = lpf_ref(R * z, BW, fs)
         got = out.noise - b_noise
         zs = R * float(np.abs(z).max())
-        scale = det_scale + zs
+        scale = o['det_scale'] + zs
         e = float(np.abs(got - want).max())
         errs['gain'] = max(errs.get('gain', 0.0), e / scale if scale else e)
-        if e > TOL_F * scale:
+        if e > tol['f'] * scale + R * tol['q']:
             viol.append((f'noise:rng-gain:{sel}',
                          f'{w}: out.noise - out.noise|0 differs from LPF(R_load*z) by {e:.3e} (scale {scale:.3e}); '
                          f'the random terms do not enter linearly with unit gain'))
-    nt = bool(expected) or (want_beat and bmag > 0)
-    return res(viol=viol, obs=tuple(obs), nontrivial=nt, stats=stats,
-               payload={'errs': errs, 'requests': base[2] if base else None})
+    return res(viol=_suffix(viol, p), obs=tuple(obs), nontrivial=o['nontrivial'] and base is not None, stats=stats,
+               payload={'errs': errs, 'cls': precision_class(p), 'requests': base[2] if base else None})
 
 
 # ------------------------------------------------------------------ part inv
@@ -454,8 +752,9 @@ def unitary(kind, seed):
 
 
 def transform(inp, el, seed):
-    """apply a group element to the stored arrays of `inp`; returns constructor arrays (sig, noise)"""
-    S, Z = inp.signal, inp.noise
+    """apply a group element to the stored arrays of `inp` (in complex128); returns constructor arrays (sig, noise)"""
+    S = np.asarray(inp.signal).astype(complex)
+    Z = None if inp.noise is None else np.asarray(inp.noise).astype(complex)
     N = S.shape[-1]
     if el[0] == 'gphase':
         ph = 1j if el[1] == 'j' else np.exp(1j * el[1])
@@ -478,39 +777,50 @@ def case_inv(case):
     from opticomlib.typing import optical_signal
     p = dict(zip(AXN, pt))
     N = p['N']
-    fs = set_grid(p['fs'])
+    fs = set_grid(p['fs'], p['grid'])
+    bw_arg, bw = bw_of(p['BW'], fs)
+    tol = tolerances(p, bw)
     sig, noi, n_pol = build_arrays(pt, seed)
     viol, obs, errs = [], [], {}
-    stats = {'pd_calls': 0, 'group_elements': 0}
+    stats = {'pd_calls': 0, 'group_elements': 0, 'forms_rejected': 0}
     base_in = make_input(sig, noi, n_pol)
     psig, beat, psm, pnm, bmag = terms(base_in)
-    R, r = p['R_load'], p['r']
+    v = values(p)
+    R, r = v['R_load'], v['r']
+    floor = R * tol['q']
     sig_scale = R * r * float(psig.max())
     for sel in SELECTIONS:
         want_beat = SEL_TABLE[sel][0]
-        det_scale = R * (r * bmag * (1 if want_beat else 0) + p['i_dark'])
-        s0 = ScriptedRNG()
-        with scripted_rng(s0):
-            o0 = call_pd(make_input(sig, noi, n_pol), p, fs, sel)
+        det_scale = R * (r * bmag * (1 if want_beat else 0) + v['i_dark'])
+        s0 = RNG()
+        try:
+            with scripted_rng(s0):
+                o0 = call_pd(make_input(sig, noi, n_pol), p, bw_arg, sel)
+        except TypeError as e:
+            if not rejected(e, p):
+                raise
+            stats['forms_rejected'] += 1
+            obs.append((sel, 'REJECTED'))
+            continue
         stats['pd_calls'] += 1
         if not shape_check(o0, N, viol, f'pt={p} sel={sel}'):
             continue
         obs.append((sel, _h(o0.signal), _h(o0.noise)))
         for el in GROUP:
             tS, tZ = transform(base_in, el, seed)
-            q = dict(p)
+            over = {}
             fsig = fnoise = 1.0
             if el[0] == 'scale':
                 if el[1] in ('r', 'R_load'):
-                    q[el[1]] = p[el[1]] * el[2]
+                    over[el[1]] = v[el[1]] * el[2]          # the scaled value is passed as a plain float
                     fsig = el[2]
                     fnoise = el[2] if el[1] == 'R_load' else None   # the noise part is affine, not linear, in r
                 else:
                     fsig = el[2] ** 2
                     fnoise = None
-            s1 = ScriptedRNG()
+            s1 = RNG()
             with scripted_rng(s1):
-                o1 = call_pd(optical_signal(tS, tZ), q, fs, sel)
+                o1 = call_pd(optical_signal(tS, tZ), p, bw_arg, sel, **over)
             stats['pd_calls'] += 1
             stats['group_elements'] += 1
             w = f'pt={p} sel={sel} element={el}'
@@ -520,7 +830,7 @@ def case_inv(case):
             e = float(np.abs(o1.signal - fsig * o0.signal).max())
             sc = sig_scale * max(fsig, 1.0)
             errs[tag] = max(errs.get(tag, 0.0), e / sc if sc else e)
-            if e > TOL_F * sc:
+            if e > tol['f'] * sc + floor * max(fsig, 1.0):
                 law = {'r': 'linear in r', 'R_load': 'linear in R_load', 'amp': 'quadratic in the field amplitude'}.get(
                     el[1] if el[0] == 'scale' else '', 'invariant')
                 viol.append((f'sig:{tag}:{el[1]}' if el[0] != 'scale' else f'sig:{tag}',
@@ -529,7 +839,7 @@ def case_inv(case):
                 e = float(np.abs(o1.noise - fnoise * o0.noise).max())
                 sc = det_scale * max(fnoise, 1.0)
                 errs['noise-' + tag] = max(errs.get('noise-' + tag, 0.0), e / sc if sc else e)
-                if e > TOL_F * sc:
+                if e > tol['f'] * sc + floor * max(fnoise, 1.0):
                     viol.append((f'noise:{tag}:{el[1]}:{sel}',
                                  f'{w}: zero-answer noise part changes by {e:.3e} (scale {sc:.3e})'))
             if el[0] != 'scale':
@@ -539,48 +849,206 @@ def case_inv(case):
                     viol.append((f'rng:requests-not-invariant:{tag}', f'{w}: {s0.requests} vs {s1.requests}'))
                 else:
                     for x, y in zip(s0.requests, s1.requests):
-                        if abs(x['scale'] ** 2 - y['scale'] ** 2) > TOL_S * max(x['scale'] ** 2, y['scale'] ** 2):
+                        if not isinstance(x['scale'], float) or not isinstance(y['scale'], float):
+                            continue        # a per-sample scale: reported by part main
+                        s_floor = 2 * QE * (fs / 2) * 4 * DT_EPS.get(p['dtype'], (0, 0))[1]
+                        if abs(x['scale'] ** 2 - y['scale'] ** 2) > tol['s'] * max(x['scale'] ** 2, y['scale'] ** 2) + s_floor:
                             viol.append((f'rng:variance-not-invariant:{tag}',
                                          f'{w}: requested variance {x["scale"] ** 2:.17g} -> {y["scale"] ** 2:.17g}'))
-    return res(viol=viol, obs=tuple(obs), nontrivial=bool(psig.max() > 0), stats=stats, payload={'errs': errs})
+    return res(viol=_suffix(viol, p), obs=tuple(obs), nontrivial=bool(psig.max() > 0), stats=stats,
+               payload={'errs': errs, 'cls': precision_class(p)})
+
+
+# ------------------------------------------------------------------ part case: every letter case
+CASE_POINT = dict(RICH, N=32, call='kw', grid='sps,R')
+CASE_CHUNK = 128
+
+
+def spelling(sel, mask):
+    """bit i of mask set -> i-th LETTER of sel in upper case"""
+    out, i = [], 0
+    for c in sel:
+        if c.isalpha():
+            out.append(c.upper() if mask >> i & 1 else c)
+            i += 1
+        else:
+            out.append(c)
+    return ''.join(out)
+
+
+def case_case(case):
+    sel, lo, hi, seed = case
+    p = dict(CASE_POINT)
+    pt = tuple(p[a] for a in AXN)
+    fs = set_grid(p['fs'], p['grid'])
+    bw_arg, bw = bw_of(p['BW'], fs)
+    tol = tolerances(p, bw)
+    sig, noi, n_pol = build_arrays(pt, seed)
+    combo = (2, 3)            # non-zero answers: every selected term is visible in the output
+
+    def run(name):
+        s = make_script(combo)
+        with scripted_rng(s):
+            out = call_pd(make_input(sig, noi, n_pol), p, bw_arg, name)
+        return out, [dict(q) for q in s.requests]
+
+    ref, ref_reqs = run(sel)
+    scale = float(np.abs(ref.noise).max()) + float(np.abs(ref.signal).max())
+    viol, hashes = [], hashlib.sha256()
+    for mask in range(lo, hi):
+        name = spelling(sel, mask)
+        try:
+            out, reqs = run(name)
+        except (ValueError, TypeError) as e:
+            if not _from_library(e):
+                raise
+            viol.append((f'valid-arguments-rejected:letter-case:{sel}', f'include_noise={name!r}: {type(e).__name__}: {e}'))
+            hashes.update(b'EXC')
+            continue
+        hashes.update(_h(out.signal).encode() + _h(out.noise).encode())
+        if not shape_check(out, p['N'], viol, f'include_noise={name!r}'):
+            continue
+        e = max(float(np.abs(out.signal - ref.signal).max()), float(np.abs(out.noise - ref.noise).max()))
+        if reqs != ref_reqs or e > tol['f'] * scale:
+            viol.append((f'case:differs-from-lowercase:{sel}',
+                         f'include_noise={name!r} behaves differently from {sel!r}: max output difference {e:.3e} '
+                         f'(scale {scale:.3e}), requests {reqs} vs {ref_reqs}'))
+    return res(viol=viol, obs=(sel, lo, hi, hashes.hexdigest()), nontrivial=(sel, lo), stats={'pd_calls': hi - lo + 1, 'spellings': hi - lo})
+
+
+def case_cases(seed):
+    out = []
+    for sel in SELECTIONS:
+        n = 1 << sum(c.isalpha() for c in sel)
+        out += [(sel, lo, min(lo + CASE_CHUNK, n), seed) for lo in range(0, n, CASE_CHUNK)]
+    return out
+
+
+# ------------------------------------------------------------------ part sweep: one shared, write-protected input object
+def sweep_steps(p):
+    """sequence of (overrides, selection, factor on the sampling rate); the detector bandwidth stays the same number of Hz"""
+    steps = [({}, 'all', 1.0)]
+    steps += [({'r': x}, 'all', 1.0) for x in CORE['r'] if x != p['r']]
+    steps += [({'R_load': x}, 'all', 1.0) for x in CORE['R_load'] if x != p['R_load']]
+    steps += [({}, s, 1.0) for s in SELECTIONS[:-1]]
+    steps += [({}, 'all', 2.0), ({}, 'all', 1.0), ({}, 'ase-shot', 5.0), ({}, 'all', 1.0)]   # grid reconfigured in between
+    return steps
+
+
+def case_sweep(case):
+    pt, seed = case
+    p = dict(zip(AXN, pt))
+    N = p['N']
+    fs0 = set_grid(p['fs'], p['grid'])
+    bw_arg, bw0 = bw_of(p['BW'], fs0)
+    sig, noi, n_pol = build_arrays(pt, seed)
+    inp = make_input(sig, noi, n_pol)          # THE shared object
+    snap = freeze(inp)
+    viol, obs, errs, first = [], [], {}, None
+    stats = {'pd_calls': 0, 'sweep_steps': 0}
+    fx_now = 1.0
+    for i, (over, sel, fx) in enumerate(sweep_steps(p)):
+        if fx != fx_now:
+            fs = set_grid(p['fs'] * fx, 'sps,R', clean=False)      # reconfiguration on top of the grid in force
+            fx_now = fx
+        else:
+            fs = fs0 * fx
+        q = dict(p, **over)
+        o = oracle(inp, q, fs, float(bw_arg) / fs, sel)
+        s = RNG()
+        with scripted_rng(s):
+            out = call_pd(inp, q, bw_arg, sel)
+        stats['pd_calls'] += 1
+        stats['sweep_steps'] += 1
+        w = f'pt={p} shared input, step {i}: {over} sel={sel} fs x{fx:g}'
+        if not shape_check(out, N, viol, w):
+            continue
+        obs.append((i, _h(out.signal), _h(out.noise)))
+        judge_zero(out, s.requests, o, w, viol, errs)
+        if not unchanged(inp, snap):
+            viol.append(('sweep:input-modified', f'{w}: the input object differs byte-wise after the call'))
+            break
+        if first is None:
+            first = (out.signal.copy(), out.noise.copy())
+    if first is not None and viol == []:
+        if not (np.array_equal(out.signal, first[0]) and np.array_equal(out.noise, first[1])):
+            viol.append(('sweep:not-repeatable', f'pt={p}: the last call repeats the first one on the same object and grid but the '
+                                                 f'output differs by {np.abs(out.signal - first[0]).max():.3e} / {np.abs(out.noise - first[1]).max():.3e}'))
+    viol = [(k if k.startswith('sweep:') else 'sweep:' + k, m) for k, m in viol]
+    psig = terms(inp)[0]
+    return res(viol=_suffix(viol, p), obs=tuple(obs), nontrivial=bool(psig.max() > 0), stats=stats,
+               payload={'errs': errs, 'cls': precision_class(p)})
 
 
 # ------------------------------------------------------------------ part exc
+V, T_, VT = (ValueError,), (TypeError,), (ValueError, TypeError)
+_next_up = float(np.nextafter(1.0, 2.0))
 INVALID = [
-    ('r', 0, ValueError), ('r', -1, ValueError), ('r', 1.5, ValueError), ('r', '1', TypeError),
-    ('T', -1, ValueError), ('T', 'x', TypeError),
-    ('R_load', -50, ValueError), ('R_load', [50], TypeError),
-    ('include_noise', 'foo', ValueError), ('include_noise', 'ase-foo', ValueError),
-    ('include_noise', 'thermal-foo', ValueError), ('include_noise', 'ase', ValueError),
-    ('include_noise', '', ValueError), ('include_noise', 'all-', ValueError),
-    ('include_noise', True, TypeError), ('include_noise', None, TypeError),
-    ('include_noise', 0, TypeError), ('include_noise', ['all'], TypeError),
+    # r outside (0, 1]: both limits exactly, one ulp / one unit outside
+    ('r', 0, V), ('r', 0.0, V), ('r', -0.0, V), ('r', -1, V), ('r', -5e-324, V), ('r', 1.5, V), ('r', _next_up, V), ('r', 2, V),
+    ('r', float('inf'), V), ('r', float('-inf'), V),
+    ('r', F('bool', False), VT), ('r', F('np.float64', 1.5), VT), ('r', F('np.float64', 0.0), VT), ('r', F('np.float32', 1.5), VT),
+    ('r', F('np.int64', 2), VT), ('r', F('np.int64', 0), VT), ('r', F('0-d', 1.5), VT),
+    ('r', '1', T_), ('r', None, T_), ('r', F('list', [0.5]), T_), ('r', F('tuple', (0.5,)), T_), ('r', F('array', [0.5]), T_),
+    ('r', F('array', [0.5, 0.5]), T_), ('r', b'1', T_), ('r', F('dict', {}), T_),
+    # T < 0
+    ('T', -1, V), ('T', -1e-300, V), ('T', -5e-324, V), ('T', float('-inf'), V), ('T', -300.0, V),
+    ('T', F('np.float64', -1.0), VT), ('T', F('np.int64', -1), VT), ('T', F('np.float32', -1.0), VT),
+    ('T', 'x', T_), ('T', '300', T_), ('T', None, T_), ('T', F('list', [300.0]), T_), ('T', F('tuple', (300.0,)), T_),
+    ('T', F('array', [300.0]), T_), ('T', F('array', [300.0, 77.0]), T_),
+    # R_load < 0
+    ('R_load', -50, V), ('R_load', -1e-300, V), ('R_load', -5e-324, V), ('R_load', float('-inf'), V), ('R_load', -50.0, V),
+    ('R_load', F('np.float64', -50.0), VT), ('R_load', F('np.int64', -50), VT),
+    ('R_load', F('list', [50]), T_), ('R_load', '50', T_), ('R_load', None, T_), ('R_load', F('tuple', (50.0,)), T_),
+    ('R_load', F('array', [50.0]), T_), ('R_load', F('array', [50.0, 50.0]), T_),
+    # include_noise: strings that are not one of the seven options - unknown words, fragments, strings that CONTAIN valid
+    # tokens / options, wrong order, wrong separators, surrounding whitespace - in lower and upper case
+    ('include_noise', 'foo', V), ('include_noise', 'ase-foo', V), ('include_noise', 'thermal-foo', V), ('include_noise', '', V),
+    ('include_noise', 'ase', V), ('include_noise', 'thermal', V), ('include_noise', 'shot', V), ('include_noise', 'only', V),
+    ('include_noise', 'none', V), ('include_noise', 'noise', V), ('include_noise', '-', V), ('include_noise', 'al', V),
+    ('include_noise', 'all-', V), ('include_noise', '-all', V), ('include_noise', 'alll', V), ('include_noise', 'overall', V),
+    ('include_noise', 'all-noise', V), ('include_noise', 'all-only', V), ('include_noise', 'all-all', V),
+    ('include_noise', 'ase-only ', V), ('include_noise', ' ase-only', V), ('include_noise', 'all ', V), ('include_noise', ' all', V),
+    ('include_noise', 'all\n', V), ('include_noise', 'ase only', V), ('include_noise', 'ase_only', V), ('include_noise', 'aseonly', V),
+    ('include_noise', 'ase--only', V), ('include_noise', 'ase-only-', V), ('include_noise', 'ase\u2011only', V),
+    ('include_noise', 'shot-thermal', V), ('include_noise', 'shot-ase', V), ('include_noise', 'thermal-ase', V),
+    ('include_noise', 'ase-thermal-shot', V), ('include_noise', 'ase-shot-thermal', V), ('include_noise', 'ase-ase', V),
+    ('include_noise', 'ase-only,all', V), ('include_noise', 'phase-only', V), ('include_noise', 'no-shot', V),
+    ('include_noise', 'thermal-only-shot', V), ('include_noise', 'ASE', V), ('include_noise', 'SHOT-THERMAL', V),
+    ('include_noise', 'Overall', V), ('include_noise', 'ALL-NOISE', V), ('include_noise', 'ASE-ONLY ', V),
+    ('include_noise', True, T_), ('include_noise', None, T_), ('include_noise', 0, T_), ('include_noise', F('list', ['all']), T_),
+    ('include_noise', F('tuple', ('all',)), T_), ('include_noise', b'all', T_), ('include_noise', F('array', ['all']), T_),
+    ('include_noise', F('set', ['all']), T_),
 ]
+FORMS.update({'list': list, 'tuple': tuple, 'array': np.array, 'dict': dict, 'set': set})
 
 
 def case_exc(case):
     pt, idx, sel, seed = case
     from opticomlib.devices import PD
     p = dict(zip(AXN, pt))
-    fs = set_grid(p['fs'])
+    fs = set_grid(p['fs'], p['grid'])
     sig, noi, n_pol = build_arrays(pt, seed)
-    param, value, exc = INVALID[idx]
+    param, spec, allowed = INVALID[idx]
+    value = realise(spec)
+    shown = f'{spec[0]}({spec[1]!r})' if isinstance(spec, tuple) else repr(spec)
     kw = dict(r=p['r'], T=p['T'], R_load=p['R_load'], include_noise=sel, i_dark=p['i_dark'], Fn=p['Fn'])
     kw[param] = value
     inp = make_input(sig, noi, n_pol)
     got = None
-    with scripted_rng(ScriptedRNG()):
+    with scripted_rng(RNG()):
         try:
             PD(inp, p['BW'] * fs, **kw)
         except Exception as e:  # the documented errors are the subject of this part
             got = e
     viol = []
+    names = '/'.join(t.__name__ for t in allowed)
     if got is None:
-        viol.append((f'exc:{param}={value!r}:no-error', f'pt={p}: PD(..., {param}={value!r}) returned instead of raising {exc.__name__}'))
-    elif type(got) is not exc:
-        viol.append((f'exc:{param}={value!r}:{type(got).__name__}',
-                     f'pt={p}: PD(..., {param}={value!r}) raised {type(got).__name__}({got}) instead of the documented {exc.__name__}'))
-    return res(viol=viol, obs=(param, repr(value), type(got).__name__, str(got)[:80]), nontrivial=(param, repr(value)),
+        viol.append((f'exc:{param}={shown}:no-error', f'pt={p}: PD(..., {param}={shown}) returned instead of raising {names}'))
+    elif type(got) not in allowed:
+        viol.append((f'exc:{param}={shown}:{type(got).__name__}',
+                     f'pt={p}: PD(..., {param}={shown}) raised {type(got).__name__}({got}) instead of the documented {names}'))
+    return res(viol=viol, obs=(param, shown, type(got).__name__, str(got)[:80]), nontrivial=(param, shown),
                stats={'pd_calls': 1})
 
 
@@ -624,7 +1092,7 @@ def neb(bw_frac):
 def reference_selfcheck():
     """binds the scipy-designed reference filter to the closed form; returns max abs deviation of |H|"""
     worst = 0.0
-    for frac in AXES[7][1]:
+    for frac in sorted({x if not isinstance(x, tuple) else x[1] for x in CORE['BW'] + EDGE['BW']}):
         sos = _ref_sos(frac, 1.0)
         w = np.linspace(0, np.pi, 513)[:-1]
         z = np.exp(-1j * w)
@@ -641,33 +1109,36 @@ CONF_EDGE = 1024
 CONF_CFG = [
     {}, {'BW': 0.05}, {'BW': 0.49}, {'r': 0.5}, {'R_load': 1e4}, {'T': 77.0}, {'Fn': 3}, {'i_dark': 1e-6},
     {'fs': 80e9}, {'layout': 'xy', 'onoise': 'small', 'r': 0.5},
+    {'BW': 0.01}, {'grid': 'R,fs~', 'call': 'pos'},
 ]
 CONF_SEL = ['thermal-only', 'shot-only', 'thermal-shot', 'ase-thermal', 'ase-shot', 'all']
 
 
 def case_conf(case):
     cfg, sel, seed = case
-    p = {a: v[0] for a, v in AXES}
+    p = dict(SIMPLE)
     p.update(cfg)
     p['N'] = CONF_N
     pt = tuple(p[a] for a in AXN)
-    fs = set_grid(p['fs'])
-    BW = p['BW'] * fs
+    fs = set_grid(p['fs'], p['grid'])
+    bw_arg, bw = bw_of(p['BW'], fs)
+    BW = bw * fs
     sig, noi, n_pol = build_arrays(pt, seed)
     inp = make_input(sig, noi, n_pol)
     psig, beat, psm, pnm, bmag = terms(inp)
     want_beat, want_T, want_N = SEL_TABLE[sel]
-    s_t, s_n = variances(p, fs, psm, pnm)
-    R, r = p['R_load'], p['r']
+    v = values(p)
+    s_t, s_n = variances(v, fs, psm, pnm)
+    R, r = v['R_load'], v['r']
     var_w = ((s_t if want_T else 0.0) + (s_n if want_N else 0.0)) * R * R     # V^2 before the filter
-    rho4, rho8 = neb(p['BW'])
+    rho4, rho8 = neb(bw)
     np.random.seed(seed % (2 ** 32))
-    out = call_pd(inp, p, fs, sel)
+    out = call_pd(inp, p, bw_arg, sel)
     viol = []
     w = f'cfg={cfg} sel={sel} seed={seed}'
     if not shape_check(out, CONF_N, viol, w):
         return res(viol=viol, obs='BADSHAPE')
-    det = lpf_ref(R * ((r * beat if want_beat else 0.0) + p['i_dark']) + np.zeros(CONF_N), BW, fs)
+    det = lpf_ref(R * ((r * beat if want_beat else 0.0) + v['i_dark']) + np.zeros(CONF_N), BW, fs)
     y = (out.noise - det)[CONF_EDGE:-CONF_EDGE]
     M = y.size
     mean, var = float(y.mean()), float(y.var())
@@ -694,29 +1165,47 @@ def _merge_errs(ctx, name, payloads):
         if not pl:
             continue
         for k, v in pl.get('errs', {}).items():
-            agg[k] = max(agg.get(k, 0.0), v)
-    ctx.extra.setdefault('max_relative_error_observed', {})[name] = {k: float(f'{v:.3e}') for k, v in sorted(agg.items())}
-    print(f'[C09] {name}: max relative errors {ctx.extra["max_relative_error_observed"][name]} (tolerance {TOL_F:.2e})', flush=True)
+            a = agg.setdefault(pl.get('cls', 'double'), {})
+            a[k] = max(a.get(k, 0.0), v)
+    out = {c: {k: float(f'{v:.3e}') for k, v in sorted(a.items())} for c, a in sorted(agg.items())}
+    ctx.extra.setdefault('max_relative_error_observed', {})[name] = out
+    for c, a in out.items():
+        print(f'[C09] {name}: max relative errors, {c}-precision samples/scalars: {a}', flush=True)
+
+
+def letter_cases_for(depth, i):
+    """all three letter cases near the centres (<= 1 deviation), one rotating letter case further out;
+    part `case` enumerates EVERY spelling at one point"""
+    return LETTER_CASES if depth <= 1 else [LETTER_CASES[i % 3]]
 
 
 def run(ctx):
     seed = int(ctx.seed)
-    k_simple, k_rich = (2, 1) if ctx.quick else (3, 2)
-    pts = lattice(k_simple, k_rich)
+    k_simple, k_rich, e_simple, e_rich = (2, 1, 0, 0) if ctx.quick else (3, 2, 1, 0)
+    lat = lattice(k_simple, k_rich, e_simple, e_rich)
+    pts = [p for p, _ in lat]
+    n_edge = sum(len(e) for _, _, e in AXES)
     ctx.space('lattice.points', len(pts))
     ctx.space('axes', len(AXES))
-    ctx.rule(f'C09: deviation lattice over {len(AXES)} axes {[(a, len(v)) for a, v in AXES]}: every point differing from '
-             f'the simplest baseline in <= {k_simple} axes plus every point differing from the richest centre {RICH} in '
-             f'<= {k_rich} axes ({len(pts)} points); x all 7 include_noise selections x letter cases {LETTER_CASES} '
+    ctx.space('axes.edge_values', n_edge)
+    ctx.rule(f'C09: deviation lattice over {len(AXES)} axes (core values {[(a, len(c)) for a, c, _ in AXES]}, edge values '
+             f'{[(a, len(e)) for a, _, e in AXES]}): every point differing from the simplest baseline in <= {k_simple} axes by '
+             f'core values, every edge value (dtypes, scalar forms, limits, lengths 17..33, BW/fs down to 1e-4, grid histories, '
+             f'call forms, amplitude scales) with <= {e_simple} further core deviation(s), the same around the richest centre '
+             f'{RICH} with <= {k_rich} / {e_rich} ({len(pts)} points); x all 7 include_noise selections x letter cases '
+             f'{LETTER_CASES} (all three within one deviation of a centre, one rotating further out) '
              f'x EVERY combination of scripted answers {ANSWERS} to each numpy.random.normal request (4^requests); '
-             f'invariance group {GROUP} and documented exceptions {[(a, repr(b)) for a, b, _ in INVALID]} over the lattice; '
-             f'real-RNG conformance on 2^18-sample CW records, seeds {{seed, seed+1, seed+2}}')
+             f'invariance group {GROUP} over the lattice; ALL 2^n upper/lower spellings of the 7 selections; parameter / '
+             f'selection / sampling-rate sweeps on one shared write-protected input; {len(INVALID)} invalid values over the '
+             f'k<=1 core lattice; real-RNG conformance on 2^18-sample CW records, seeds {{seed, seed+1, seed+2}}')
     ctx.assume('numpy.random.normal(0, s, n) returns n independent N(0, s^2) draws (the scripted RNG decides which draws are '
                'requested and how they enter; the real-RNG runs only bind the script to the real generator)')
     ctx.assume('the reference zero-phase filter shares scipy.signal.bessel/sosfiltfilt with the implementation; its frequency '
                'response is bound to the Bessel polynomial closed form (self-check) and filter-independent facts are checked '
                'separately (CW constant, invariances, scaling laws); LPF itself is the subject of C11')
     ctx.assume('kB = 1.380649e-23 J/K and e = 1.602176634e-19 C (exact SI values)')
+    ctx.assume('bool and numpy-scalar FORMS of legal r/T/R_load/BW/i_dark/Fn values: the statement is silent, the library may '
+               'reject them with its documented TypeError or must treat them as the number (Python int/float must be accepted)')
 
     dev = reference_selfcheck()
     ctx.extra['reference_filter_vs_closed_form'] = float(f'{dev:.3e}')
@@ -724,7 +1213,8 @@ def run(ctx):
         raise AssertionError(f'reference filter deviates from the Bessel closed form by {dev}')
 
     # ---- main
-    cases = [(pt, sel, lc, seed) for pt in pts for sel in SELECTIONS for lc in LETTER_CASES]
+    cases = [(pt, sel, lc, seed) for i, (pt, d) in enumerate(lat) for j, sel in enumerate(SELECTIONS)
+             for lc in letter_cases_for(d, i + j)]
     pl = ctx.pmap('main', case_main, cases, horizon=30)
     _merge_errs(ctx, 'main', pl)
     logs = [p_['requests'] for p_ in pl[:21] if p_ and p_.get('requests') is not None]
@@ -735,8 +1225,17 @@ def run(ctx):
     pl = ctx.pmap('inv', case_inv, [(pt, seed) for pt in pts], horizon=60)
     _merge_errs(ctx, 'inv', pl)
 
+    # ---- every letter case
+    ctx.pmap('case', case_case, case_cases(seed), horizon=60)
+
+    # ---- sweeps on one shared input object: k<=1 core lattice around both centres + the object-related edge values
+    spts = [p for p, _ in lattice(1, 1)]
+    spts += [tuple(dict(SIMPLE, **{a: e})[x] for x in AXN) for a in ('layout', 'onoise', 'dtype', 'kind') for e in EDGE[a]]
+    pl = ctx.pmap('sweep', case_sweep, [(pt, seed) for pt in spts], horizon=60)
+    _merge_errs(ctx, 'sweep', pl)
+
     # ---- documented exceptions over the k<=1 lattice, under every selection at the baseline
-    epts = lattice(1, 0)
+    epts = [p for p, _ in lattice(1, 0)]
     ecases = [(pt, i, 'all', seed) for pt in epts for i in range(len(INVALID))]
     ecases += [(epts[0], i, sel, seed) for sel in SELECTIONS[:-1] for i in range(len(INVALID)) if INVALID[i][0] != 'include_noise']
     ctx.pmap('exc', case_exc, ecases, horizon=20)
